@@ -198,8 +198,16 @@ CLAIMED["C17"] = dict(
     note=TSYS_NOTE,
 )
 
+CLAIMED["C20"] = dict(
+    engine="symx",
+    technique="symbolic execution of goproxytest's readModList, handler, readArchive and findHash-free paths from go/ssa over a generated module directory in the file-system model (stored set and file contents chosen by the solver), with net/http's NotFound/Error, archive/zip and par.Cache.Do stubbed",
+    text=("PART of the property, stated as such. The real module discovery (file-name decoding with module.UnescapePath/UnescapeVersion from x/mod, interpreted from SSA), request routing and unescaping, list filtering (isPseudoVersion, module.Check), archive loading for all three layouts (.txtar, .txt, directory via filepath.WalkDir over the model) and the info/mod/zip responses are executed symbolically: "
+          "which of eight menu entries are stored and one content byte per module are solver variables, the request is any endpoint for any menu module or an unknown one. Asserted: list = exactly the stored valid non-pseudo versions (404 if none); .info/.mod bodies byte-identical to the stored files; the zip receives exactly the stored files whose names do not start with a dot, under path@version/, with identical contents; 404 with empty body for everything not stored or unknown. "
+          "NOT claimed: the zip container encoding (archive/zip is replaced by a recorder), the HTTP transport, commit-hash (all-hex) version resolution, and responses under concurrent requests (the handler's only shared mutable state are two par.Cache values, whose once-per-key behaviour is C10's claim)."),
+    design_ref="DESIGN.md §0.7",
+)
+
 NOT_APPLICABLE = {
-    "C20": "goproxytest's behaviour lives in net/http, archive/zip+flate, encoding/json (reflection) and directory walks; none is encodable by the SSA symbolic executor, and with them stubbed nothing solver-relevant remains (its once-per-key ingredient is par.Cache = C10)",
 }
 
 PENDING_REASON = "check not built yet in this session (planned, see DESIGN.md §9); not claimed until it runs clean"
